@@ -210,3 +210,34 @@ def fetch_text(tx_id, text, network="mainnet"):
     finally:
         _txmod.urlopen = saved_urlopen
         TxFetcher.cache = saved_cache
+
+
+def fetch_twice(tx_id_bytes, raw, network="mainnet"):
+    """history: the server answers `raw` for the request (fetch may refuse it), then the SAME id is fetched
+    again while the network is down.  Returns the list of hashes of every transaction object the fetcher
+    handed back during the history plus the keys/hashes left in the cache: [(requested id, returned hash)...]"""
+    saved_urlopen = _txmod.urlopen
+    saved_cache = TxFetcher.cache
+    TxFetcher.cache = {}
+    out = []
+    try:
+        with contextlib.redirect_stdout(io.StringIO()):
+            _txmod.urlopen = lambda req: _Response((raw.hex() + "\n").encode("utf-8"))
+            try:
+                out.append((tx_id_bytes, TxFetcher.fetch(tx_id_bytes.hex(), network=network).hash()))
+            except Exception:
+                pass
+
+            def down(req):
+                raise OSError("network is down")
+            _txmod.urlopen = down
+            try:
+                out.append((tx_id_bytes, TxFetcher.fetch(tx_id_bytes.hex(), network=network).hash()))
+            except Exception:
+                pass
+            for k, v in TxFetcher.cache.items():
+                out.append((bytes.fromhex(k), v.hash()))
+        return out
+    finally:
+        _txmod.urlopen = saved_urlopen
+        TxFetcher.cache = saved_cache
